@@ -30,6 +30,7 @@ def run(F, chk):
     P3 = chk.rule('P3', 'every merge in the stage is followed (before the next receive / any send or store) by the relabel of queued messages and of the current message')
     P4 = chk.rule('P4', 'every merge site shows that the merged lifecycle was never published (buffered_lcs.contains evidence) or removes it from the published table')
     O1 = chk.rule('O1', 'comparators that order lifecycles are key-based (same key of both arguments): total by construction')
+    P5 = chk.rule('P5', 'every message handed to the outflow had its lifecycle marked for the table refresh (or just updated) since it was taken; mark-skipping caches are invalidated by every clear of the list')
     check_update(F, P1)
     check_new(F, P1)
     check_merge_fn(F, P2)
@@ -37,6 +38,7 @@ def run(F, chk):
         st = lcstage.Stage(F, b)
         check_relabel(F, st, P3)
         check_unpublish(F, st, P4)
+        check_marked(F, st, P5)
     P3.floor('lifecycle stage functions', len(lcstage.find_stage(F)), 1)
     comparators.check(F, O1, where=lambda b: any(re.search(r'Lifecycle\b', t) for t in b.arg_types()), floor=2)
 
@@ -329,3 +331,120 @@ def check_unpublish(F, st, P4):
         else:
             P4.ok(sample={'merge_at': body.loc(t.sp), 'merged': merged_of[m], 'evidence': 'every path to the next receive passes a membership proof of %s.id in the buffered set or its removal from the published table' % merged_of[m]})
     P4.floor('merge call sites in the stage', len(merges), 2)
+
+
+# ---------------------------------------------------------------------------------------------
+# P5: every delivered message's lifecycle is (re)marked for the final table refresh
+
+def check_marked(F, st, P5):
+    """Rule #2 of the stage ("the lifecycle info ... at the end reflects the final state"): between taking a
+    message (receive / pop / final flush) and handing it to the outflow, its lifecycle id is put on the
+    refresh list (mark closure) - or the mark is skipped on an equality edge `id == cache` where the cache
+    local was set together with a mark/update of that id and the list was not cleared since."""
+    import re as _re
+    body, cfg, E = st.body, st.cfg, st.E
+    P5.fn(body.path)
+    # a new message is in play after the inflow/final-flush take and after every hand-over (the queue head is
+    # inspected and marked *before* it is popped, so pop_front itself is not a boundary)
+    sends = st.blocks_with('SEND')
+    takes = set(st.blocks_with('RECV_IN')) | set(st.blocks_with('FINAL_NEXT')) | set(sends) | set(st.blocks_with('STORE'))
+    marks = {}
+    clears = set()
+    for blk in body.calls():
+        t = blk.term
+        tgt = t.callee.resolved and F.get(t.callee.resolved)
+        if tgt is not None and tgt.kind == 'closure':
+            ats = tgt.arg_types()
+            calls = [x.term.callee.path for x in tgt.calls()]
+            if len(ats) >= 3 and ats[1] == 'u32' and ats[2].startswith('&mut std::vec::Vec<u32>') and any(c.endswith('Vec::<T, A>::push') for c in calls):
+                e = E.operand(t.args[1])
+                arg = e[2][0] if isinstance(e, tuple) and e[0] == 'agg' and e[2] else e
+                marks[blk.i] = show(arg)
+            if any(c.endswith('Vec::<T, A>::clear') for c in calls):
+                clears.add(blk.i)
+        if t.callee.path.endswith('Vec::<T, A>::clear') and 'Vec<u32>' in (t.args[0].ty or ''):
+            clears.add(blk.i)
+    for bi in st.blocks_with('W_DIRTY'):
+        t = body.blocks[bi].term
+        if st.info[bi].get('what') == 'update' and len(t.args) > 1:
+            marks.setdefault(bi, show(E.operand(t.args[1])))
+    P5.floor('mark/update sites in the stage', len(marks), 4)
+    P5.floor('refresh-list clear sites (directly or in closures)', len(clears), 1)
+    # assignments to named u32 locals (candidate caches)
+    assigns = {}
+    for blk in body.blocks:
+        if blk.cleanup:
+            continue
+        for i, s in enumerate(blk.stmts):
+            if s.k == 'assign' and s.place.is_local and body.name_of(s.place.l) and body.lty(s.place.l) == 'u32':
+                assigns.setdefault(blk.i, []).append((body.name_of(s.place.l), E.rvalue(s.rv)))
+
+    def block_effect(b, facts):
+        if b.i in takes:
+            facts = frozenset(f for f in facts if f != ('marked',))
+        for (nm, e) in assigns.get(b.i, []):
+            facts = frozenset(f for f in facts if not (f[0] in ('cache', 'zero', 'pend') and f[1] == nm))
+            if e == ('const', 0):
+                facts = frozenset(facts | {('zero', nm)})
+            elif ('mk', show(e)) in facts:
+                facts = frozenset(facts | {('cache', nm)})
+            else:
+                facts = frozenset(facts | {('pend', nm, show(e))})
+        if b.i in marks:
+            arg = marks[b.i]
+            new = {('marked',), ('mk', arg)}
+            for f in facts:
+                if f[0] == 'pend' and f[2] == arg:
+                    new.add(('cache', f[1]))
+            facts = frozenset(facts | new)
+        if b.i in clears:
+            facts = frozenset(f for f in facts if f[0] not in ('cache', 'mk', 'pend'))
+        return facts
+
+    def edge_effect(b, tgt, facts):
+        if b.term.k != 'switch':
+            return facts
+        c = E.switch_cond(b)
+        if not (isinstance(c, tuple) and c[0] == 'bin' and c[1] in ('Eq', 'Ne')):
+            return facts
+        names = [x[1] for x in (c[2], c[3]) if isinstance(x, tuple) and x[0] == 'place' and len(x) == 2]
+        if not names:
+            return facts
+        vals = b.term.d['vals']
+        is_true = None
+        for v, t in vals:
+            if t == tgt:
+                is_true = (v != 0)
+        if is_true is None and b.term.d['otherwise'] == tgt and [v for v, _ in vals] == [0]:
+            is_true = True
+        if is_true is None:
+            return facts
+        equal_edge = (c[1] == 'Eq') == is_true
+        if not equal_edge:
+            return facts
+        for nm in names:
+            if ('zero', nm) in facts:
+                return None      # an assigned lifecycle id is never 0: infeasible
+            if ('cache', nm) in facts:
+                return frozenset(facts | {('marked',)})
+        return facts
+    ex = Explorer(cfg, block_effect=block_effect, edge_effect=edge_effect, var_roots=set())
+    ex.run()
+    P5.paths += ex.n_states
+    for bi in sends:
+        bad = [s for s in ex.states.get(bi, ()) if ('marked',) not in s[1]]
+        where = body.loc(body.blocks[bi].term.sp)
+        if bad:
+            P5.violation(('delivered-unmarked', body.path, st.info[bi].get('src') or 'q', guard_key2(st, bi)),
+                         'a message can be handed to the outflow at %s without its lifecycle having been marked for the table refresh since it was taken (or via a cache whose list was cleared in between): '
+                         'the final table can list a stale message count for that lifecycle' % where, where=where, witness={'block_path': ex.witness(bi, bad[0])[-50:]})
+        else:
+            P5.ok(sample={'outflow_call': where, 'lifecycle_marked_or_just_updated_on_all_paths': True})
+
+
+def guard_key2(st, bi):
+    ks = []
+    for (c, t, D) in guards.known(st.cfg, st.E, bi):
+        if t in (True, False) and isinstance(c, tuple) and c[0] in ('bin',) and c[1] in ('Eq', 'Ne'):
+            ks.append(re.sub(r'[^A-Za-z_(),]+', '', show(c))[:30] + str(t))
+    return ','.join(ks[:2]) or 'top'
